@@ -365,8 +365,155 @@ pub fn reference(ins: &Instruction, st: &State) -> RefOutcome {
             };
             RefOutcome::Ok { pc: (ps, po), ap: st.ap, fp: nfp, writes }
         }
-        _ => RefOutcome::Undefined,
+        InstructionBody::QM31AssertEq(a) => {
+            let ResOperand::BinOp(BinOpOperand { op, a: ca, b: cb }) = &a.b else {
+                // Not an instruction the toolchain emits (the VM rejects the encoding).
+                return RefOutcome::Undefined;
+            };
+            let Some(dst_addr) = st.addr(&a.a) else { return RefOutcome::Fail };
+            let Some(x) = st.cell(ca) else { return RefOutcome::Fail };
+            let y = match cb {
+                DerefOrImmediate::Immediate(v) => Some(imm_v(v)),
+                DerefOrImmediate::Deref(c) => match st.cell(c) {
+                    Some(y) => y,
+                    None => return RefOutcome::Fail,
+                },
+            };
+            let (Some(x), Some(y)) = (x, y) else { return RefOutcome::Undefined };
+            let (V::F(x), V::F(y)) = (x, y) else { return RefOutcome::Fail };
+            let (Some(qx), Some(qy)) = (qm31_unpack(&x), qm31_unpack(&y)) else { return RefOutcome::Fail };
+            let r = V::F(qm31_pack(&if *op == Operation::Add { qm31_add(&qx, &qy) } else { qm31_mul(&qx, &qy) }));
+            if !assert_cell(st, 1, dst_addr, &r, &mut writes) {
+                return RefOutcome::Fail;
+            }
+            RefOutcome::Ok { pc: next_pc, ap: st.ap + inc, fp: st.fp, writes }
+        }
+        InstructionBody::Blake2sCompress(b) => {
+            let u32_of = |v: Option<V>| -> Option<u32> {
+                match v {
+                    Some(V::F(f)) => f.to_u32(),
+                    _ => None,
+                }
+            };
+            let Some(counter) = st.cell(&b.byte_count).and_then(u32_of) else { return RefOutcome::Fail };
+            let ptr = |c: &CellRef| -> Option<(isize, usize)> {
+                match st.cell(c)? {
+                    Some(V::R(s, o)) => Some((s, o)),
+                    _ => None,
+                }
+            };
+            let Some((ss, so)) = ptr(&b.state) else { return RefOutcome::Fail };
+            let Some((ms, mo)) = ptr(&b.message) else { return RefOutcome::Fail };
+            let mut h = [0u32; 8];
+            for (i, w) in h.iter_mut().enumerate() {
+                let Some(x) = u32_of(st.get(ss, so + i)) else { return RefOutcome::Fail };
+                *w = x;
+            }
+            let mut m = [0u32; 16];
+            for (i, w) in m.iter_mut().enumerate() {
+                let Some(x) = u32_of(st.get(ms, mo + i)) else { return RefOutcome::Fail };
+                *w = x;
+            }
+            let Some(V::R(os, oo)) = st.mem.get(&st.ap).cloned() else { return RefOutcome::Fail };
+            let out = blake2s_compress_ref(&h, &m, counter, b.finalize);
+            for (i, w) in out.iter().enumerate() {
+                if !assert_cell(st, os, oo + i, &V::F(BigInt::from(*w)), &mut writes) {
+                    return RefOutcome::Fail;
+                }
+            }
+            RefOutcome::Ok { pc: next_pc, ap: st.ap + 1, fp: st.fp, writes }
+        }
     }
+}
+
+const M31: u64 = (1 << 31) - 1;
+
+/// (a + b i) + (c + d i) u, packed as a + b 2^36 + c 2^72 + d 2^108 with every coordinate < 2^31 - 1.
+pub fn qm31_unpack(f: &BigInt) -> Option<[u64; 4]> {
+    if f.sign() == num_bigint::Sign::Minus || f.bits() > 144 {
+        return None;
+    }
+    let mask = (BigInt::one() << 36) - 1;
+    let mut out = [0u64; 4];
+    for (k, o) in out.iter_mut().enumerate() {
+        let c = ((f >> (36 * k)) & &mask).to_u64()?;
+        if c >= M31 {
+            return None;
+        }
+        *o = c;
+    }
+    Some(out)
+}
+pub fn qm31_pack(q: &[u64; 4]) -> BigInt {
+    (0..4).map(|k| BigInt::from(q[k]) << (36 * k)).sum()
+}
+pub fn qm31_add(x: &[u64; 4], y: &[u64; 4]) -> [u64; 4] {
+    [(x[0] + y[0]) % M31, (x[1] + y[1]) % M31, (x[2] + y[2]) % M31, (x[3] + y[3]) % M31]
+}
+fn cm_mul(a: (u64, u64), b: (u64, u64)) -> (u64, u64) {
+    // (a0 + a1 i)(b0 + b1 i), i^2 = -1
+    let re = (a.0 * b.0 % M31 + M31 - a.1 * b.1 % M31) % M31;
+    let im = (a.0 * b.1 % M31 + a.1 * b.0 % M31) % M31;
+    (re, im)
+}
+pub fn qm31_mul(x: &[u64; 4], y: &[u64; 4]) -> [u64; 4] {
+    // (x0 + x1 u)(y0 + y1 u), u^2 = 2 + i
+    let (x0, x1, y0, y1) = ((x[0], x[1]), (x[2], x[3]), (y[0], y[1]), (y[2], y[3]));
+    let a = cm_mul(x0, y0);
+    let b = cm_mul(x1, y1);
+    let rb = cm_mul(b, (2, 1));
+    let c = cm_mul(x0, y1);
+    let d = cm_mul(x1, y0);
+    [(a.0 + rb.0) % M31, (a.1 + rb.1) % M31, (c.0 + d.0) % M31, (c.1 + d.1) % M31]
+}
+
+/// BLAKE2s compression function F (RFC 7693), counter in t0, t1 = 0, f0 set on the final block.
+pub fn blake2s_compress_ref(h: &[u32; 8], m: &[u32; 16], t0: u32, last: bool) -> [u32; 8] {
+    const IV: [u32; 8] = [0x6A09E667, 0xBB67AE85, 0x3C6EF372, 0xA54FF53A, 0x510E527F, 0x9B05688C, 0x1F83D9AB, 0x5BE0CD19];
+    const SIGMA: [[usize; 16]; 10] = [
+        [0, 1, 2, 3, 4, 5, 6, 7, 8, 9, 10, 11, 12, 13, 14, 15],
+        [14, 10, 4, 8, 9, 15, 13, 6, 1, 12, 0, 2, 11, 7, 5, 3],
+        [11, 8, 12, 0, 5, 2, 15, 13, 10, 14, 3, 6, 7, 1, 9, 4],
+        [7, 9, 3, 1, 13, 12, 11, 14, 2, 6, 5, 10, 4, 0, 15, 8],
+        [9, 0, 5, 7, 2, 4, 10, 15, 14, 1, 11, 12, 6, 8, 3, 13],
+        [2, 12, 6, 10, 0, 11, 8, 3, 4, 13, 7, 5, 15, 14, 1, 9],
+        [12, 5, 1, 15, 14, 13, 4, 10, 0, 7, 6, 3, 9, 2, 8, 11],
+        [13, 11, 7, 14, 12, 1, 3, 9, 5, 0, 15, 4, 8, 6, 2, 10],
+        [6, 15, 14, 9, 11, 3, 0, 8, 12, 2, 13, 7, 1, 4, 10, 5],
+        [10, 2, 8, 4, 7, 6, 1, 5, 15, 11, 9, 14, 3, 12, 13, 0],
+    ];
+    let mut v = [0u32; 16];
+    v[..8].copy_from_slice(h);
+    v[8..].copy_from_slice(&IV);
+    v[12] ^= t0;
+    if last {
+        v[14] ^= 0xffff_ffff;
+    }
+    let g = |v: &mut [u32; 16], a: usize, b: usize, c: usize, d: usize, x: u32, y: u32| {
+        v[a] = v[a].wrapping_add(v[b]).wrapping_add(x);
+        v[d] = (v[d] ^ v[a]).rotate_right(16);
+        v[c] = v[c].wrapping_add(v[d]);
+        v[b] = (v[b] ^ v[c]).rotate_right(12);
+        v[a] = v[a].wrapping_add(v[b]).wrapping_add(y);
+        v[d] = (v[d] ^ v[a]).rotate_right(8);
+        v[c] = v[c].wrapping_add(v[d]);
+        v[b] = (v[b] ^ v[c]).rotate_right(7);
+    };
+    for s in SIGMA.iter() {
+        g(&mut v, 0, 4, 8, 12, m[s[0]], m[s[1]]);
+        g(&mut v, 1, 5, 9, 13, m[s[2]], m[s[3]]);
+        g(&mut v, 2, 6, 10, 14, m[s[4]], m[s[5]]);
+        g(&mut v, 3, 7, 11, 15, m[s[6]], m[s[7]]);
+        g(&mut v, 0, 5, 10, 15, m[s[8]], m[s[9]]);
+        g(&mut v, 1, 6, 11, 12, m[s[10]], m[s[11]]);
+        g(&mut v, 2, 7, 8, 13, m[s[12]], m[s[13]]);
+        g(&mut v, 3, 4, 9, 14, m[s[14]], m[s[15]]);
+    }
+    let mut out = [0u32; 8];
+    for i in 0..8 {
+        out[i] = h[i] ^ v[i] ^ v[i + 8];
+    }
+    out
 }
 
 fn to_mr(v: &V) -> MaybeRelocatable {
@@ -385,7 +532,7 @@ fn from_mr(m: &MaybeRelocatable) -> V {
 /// One VM step over the encoded words.
 fn dd_target(ins: &Instruction, st: &State) -> Option<(isize, usize)> {
     let (c, off) = match &ins.body {
-        InstructionBody::AssertEq(AssertEqInstruction { b: ResOperand::DoubleDeref(c, off), .. }) => (c, off),
+        InstructionBody::AssertEq(AssertEqInstruction { b: ResOperand::DoubleDeref(c, off), .. }) | InstructionBody::QM31AssertEq(AssertEqInstruction { b: ResOperand::DoubleDeref(c, off), .. }) => (c, off),
         InstructionBody::AddAp(AddApInstruction { operand: ResOperand::DoubleDeref(c, off) }) => (c, off),
         _ => return None,
     };
@@ -435,6 +582,9 @@ pub fn vm_step(ins: &Instruction, words: &[BigInt], st: &State, extra: &[usize])
                 }
             }
             let mut c2: std::collections::BTreeSet<usize> = (0..64).collect();
+            if matches!(ins.body, InstructionBody::Blake2sCompress(_)) {
+                c2.extend(200..216);
+            }
             if let Some((2, t)) = dd_target(ins, st) {
                 c2.insert(t);
             }
@@ -529,6 +679,28 @@ pub fn shapes() -> Vec<Instruction> {
         }
     }
     out.push(Instruction::new(InstructionBody::Ret(RetInstruction {}), false));
+    // Extension forms: QM31 assertions over every operand form, Blake2s over every register choice.
+    for r in regs {
+        // (Only the add / mul forms exist: the VM's decoder rejects the extension bit on other
+        // result kinds, and the Sierra -> CASM compiler emits it for QM31 arithmetic only.)
+        for b in res_operands.iter().filter(|b| matches!(b, ResOperand::BinOp(..))) {
+            for inc in [false, true] {
+                out.push(Instruction::new(InstructionBody::QM31AssertEq(AssertEqInstruction { a: cell(r), b: b.clone() }), inc));
+            }
+        }
+    }
+    for r0 in regs {
+        for r1 in regs {
+            for r2 in regs {
+                for finalize in [false, true] {
+                    out.push(Instruction::new(
+                        InstructionBody::Blake2sCompress(cairo_lang_casm::instructions::Blake2sCompressInstruction { state: cell(r0), byte_count: cell(r1), message: cell(r2), finalize }),
+                        true,
+                    ));
+                }
+            }
+        }
+    }
     out
 }
 
@@ -565,6 +737,11 @@ fn slots(ins: &mut Instruction) -> (Vec<&mut i16>, Vec<&mut BigInt>) {
             res(&mut a.b, &mut offs, &mut imms);
         }
         InstructionBody::AddAp(a) => res(&mut a.operand, &mut offs, &mut imms),
+        InstructionBody::Blake2sCompress(b) => {
+            offs.push(&mut b.state.offset);
+            offs.push(&mut b.byte_count.offset);
+            offs.push(&mut b.message.offset);
+        }
         InstructionBody::Call(c) => doi(&mut c.target, &mut offs, &mut imms),
         InstructionBody::Jump(j) => doi(&mut j.target, &mut offs, &mut imms),
         InstructionBody::Jnz(j) => {
@@ -590,7 +767,12 @@ fn touched(ins: &Instruction, ap: usize, fp: usize) -> Vec<usize> {
         }
     };
     match &ins.body {
-        InstructionBody::AssertEq(a) => {
+        InstructionBody::Blake2sCompress(b) => {
+            add(&b.state);
+            add(&b.byte_count);
+            add(&b.message);
+        }
+        InstructionBody::AssertEq(a) | InstructionBody::QM31AssertEq(a) => {
             add(&a.a);
             match &a.b {
                 ResOperand::Deref(c) | ResOperand::DoubleDeref(c, _) => add(c),
@@ -658,6 +840,44 @@ pub fn gen_state(rng: &mut SplitMix, ins: &Instruction) -> State {
             }
         }
     };
+    if let InstructionBody::Blake2sCompress(b) = &ins.body {
+        // State / message / output blocks live in segment 2; the three cells point at them.
+        let rand_u32 = |rng: &mut SplitMix| -> V {
+            match rng.next() % 8 {
+                0 => V::F(BigInt::zero()),
+                1 => V::F(BigInt::from(u32::MAX)),
+                2 => V::F(BigInt::from(1u64 << 32)), // not a u32: must fail
+                _ => V::F(BigInt::from(rng.next() as u32)),
+            }
+        };
+        for i in 0..8 {
+            if rng.next() % 40 != 0 {
+                st.mem2.insert(100 + i, rand_u32(rng));
+            }
+        }
+        for i in 0..16 {
+            if rng.next() % 60 != 0 {
+                st.mem2.insert(120 + i, rand_u32(rng));
+            }
+        }
+        let cells = [(&b.state, V::R(2, 100)), (&b.byte_count, rand_u32(rng)), (&b.message, V::R(2, 120))];
+        for (c, v) in cells {
+            if let Some(a) = st.addr(c) {
+                if a != fp - 1 && a != fp - 2 && rng.next() % 16 != 0 {
+                    st.mem.entry(a).or_insert(v);
+                }
+            }
+        }
+        // [ap] -> output block (unknown cells), sometimes partly known.
+        if rng.next() % 16 != 0 {
+            st.mem.entry(ap).or_insert(V::R(2, 200));
+        }
+        if rng.next() % 8 == 0 {
+            st.mem2.insert(200 + (rng.next() % 8) as usize, rand_u32(rng));
+        }
+        return st;
+    }
+    let is_qm31 = matches!(&ins.body, InstructionBody::QM31AssertEq(AssertEqInstruction { b: ResOperand::BinOp(..), .. }));
     let is_dd = matches!(&ins.body, InstructionBody::AssertEq(AssertEqInstruction { b: ResOperand::DoubleDeref(..), .. }) | InstructionBody::AddAp(AddApInstruction { operand: ResOperand::DoubleDeref(..) }));
     let is_binop = matches!(&ins.body, InstructionBody::AssertEq(AssertEqInstruction { b: ResOperand::BinOp(..), .. }) | InstructionBody::AddAp(AddApInstruction { operand: ResOperand::BinOp(..) }));
     let wants_ptr = matches!(&ins.body, InstructionBody::Jump(JumpInstruction { relative: false, .. }) | InstructionBody::Call(CallInstruction { relative: false, .. }));
@@ -669,6 +889,18 @@ pub fn gen_state(rng: &mut SplitMix, ins: &Instruction) -> State {
         if rng.next() % 4 != 0 {
             let pointerish = (is_dd && k == 1) || (wants_ptr && rng.next() % 4 != 0);
             let mut v = rand_val(rng, pointerish);
+            if is_qm31 && rng.next() % 6 != 0 {
+                // A reduced packed QM31 element (boundary coordinates included).
+                let c = |rng: &mut SplitMix| -> u64 {
+                    match rng.next() % 5 {
+                        0 => 0,
+                        1 => M31 - 1,
+                        2 => 1,
+                        _ => rng.next() % M31,
+                    }
+                };
+                v = V::F(qm31_pack(&[c(rng), c(rng), c(rng), c(rng)]));
+            }
             if is_binop && rng.next() % 4 != 0 {
                 while matches!(v, V::R(..)) {
                     v = rand_val(rng, false);
@@ -692,7 +924,7 @@ pub fn gen_state(rng: &mut SplitMix, ins: &Instruction) -> State {
     }
     // Destination fix-up for assertions: unknown (deduced), consistent (passes without a write)
     // or left as generated (mostly conflicting).
-    if let InstructionBody::AssertEq(a) = &ins.body {
+    if let InstructionBody::AssertEq(a) | InstructionBody::QM31AssertEq(a) = &ins.body {
         if let Some(dst) = st.addr(&a.a) {
             if dst != fp - 1 && dst != fp - 2 {
                 let mode = rng.next() % 10;
@@ -750,7 +982,8 @@ pub fn judge(ins: &Instruction, st: &State) -> Result<u8, (String, String)> {
         InstructionBody::Jump(_) => "jmp",
         InstructionBody::Jnz(_) => "jnz",
         InstructionBody::Ret(_) => "ret",
-        _ => "other",
+        InstructionBody::QM31AssertEq(_) => "qm31_assert_eq",
+        InstructionBody::Blake2sCompress(_) => "blake2s",
     };
     let words = match panics::catch(|| ins.assemble().encode()) {
         Ok(w) => w,
@@ -807,8 +1040,9 @@ impl Prop for C16 {
          well-formed frame header (partially known memory, pointer cells, known / unknown / conflicting \
          destinations) one cairo-vm step over the encoded words must equal the reference step written from the \
          printed meaning: success/failure, pc, ap, fp and the set of newly written cells (write-once deduction \
-         included). Non-trivial = a compared (instruction, state) pair; distinct = hash of both. QM31 and \
-         Blake2s forms are size-checked only."
+         included). Non-trivial = a compared (instruction, state) pair; distinct = hash of both. QM31 \
+         assertions are compared against an own QM31 field (add / mul on reduced packed elements; operand \
+         deduction is skipped), Blake2s against an own RFC 7693 compression function."
             .into()
     }
     fn assumptions(&self) -> Vec<String> {
